@@ -172,6 +172,24 @@ impl NetWorld {
         Value::Object(m)
     }
 
+    /// Abstract form of a datagram arriving from `addr` (direction B), read the way the endpoint reads it: the
+    /// token hint comes from the peer's state. Returns the letter and whether it is inside the modelled alphabet
+    /// (no reader finding of any kind).
+    pub fn proj_in(&self, addr: u8, bytes: &[u8]) -> (Value, bool) {
+        let pre = self.peer_states();
+        let hint = match Self::state_of(&pre, addr) {
+            Some(st) if st["st"] == json!("Pend") || st["st"] == json!("Onl") => Some(st["tok"] != json!("no")),
+            _ => None,
+        };
+        let dg = Dg { bytes: bytes.to_vec(), has_token: hint.unwrap_or(false), from: 1 };
+        let (v, problems) = self.helper.proj_dg_hint(&dg, hint);
+        if v["k"] == json!("unreadable") {
+            return (v, problems.iter().all(|p| p.starts_with("unreadable:")));
+        }
+        let clean = problems.is_empty() && !v.to_string().contains("\"?") && !v.to_string().contains("\"id\":-1") && !v.to_string().contains("\"r\":-2");
+        (v, clean)
+    }
+
     /// Concrete bytes of an abstract datagram arriving from a remote (sender index 1).
     pub fn dg_bytes(&self, d: &Value) -> Vec<u8> {
         if d["k"] == json!("garbage") {
